@@ -77,6 +77,58 @@ def run(ctx):
                 cases.append(dict(kind=kind, y=[float(v) for v in ys], nodata=-3000.0, n=m, **p2))
                 cases.append(dict(kind=kind, y=[float(v) for v in ys[::-1]], nodata=-3000.0, n=m, **p2))
                 plan.append(("reversal", len(cases) - 2, len(cases) - 1, dict(family="smooth + end outlier")))
+    # directed families
+    for kind, extra in VARIANTS:
+        need = 5 if kind in ("wcv", "wcvp") else 2
+        for it in range(4 if ctx.thorough else 2):
+            params = variant_params(rng, kind, extra)
+            # (a) long gaps in the interpolation regime (small lambda, values in the thousands): a line must stay a line across
+            #     a gap of tens of cells, and an offset must move it rigidly
+            n = int(rng.integers(60, 121))
+            g0 = int(rng.integers(3, n - 55))
+            miss = np.zeros(n, dtype=bool)
+            miss[g0:g0 + int(rng.integers(25, 50))] = True
+            if "lam" in params:
+                params["lam"] = float(10 ** rng.uniform(-2.5, 0))
+            a, b = int(rng.integers(3000, 7000)), int(rng.integers(-20, 21))
+            line = np.array([a + b * i for i in range(n)], dtype=float)
+            nd = -3000.0
+            cases.append(dict(kind=kind, y=[nd if m else float(v) for v, m in zip(line, miss)], nodata=nd, n=n, **params))
+            plan.append(("linear", len(cases) - 1, None, dict(line=[int(v) for v in line], family="long gap, small lambda")))
+            y = np.clip(np.round(line + rng.normal(0, 150, n)), -4500, 9000)
+            c = int(rng.choice([-4000, 3500, -2500]))
+            if np.abs(y + c).max() < 9500:
+                cases.append(dict(kind=kind, y=[nd if m else float(v) for v, m in zip(y, miss)], nodata=nd, n=n, **params))
+                cases.append(dict(kind=kind, y=[nd + c if m else float(v + c) for v, m in zip(y, miss)], nodata=nd + c, n=n, **params))
+                plan.append(("offset", len(cases) - 2, len(cases) - 1, dict(c=c, family="long gap, small lambda")))
+            # (b) valid cells that sum to exactly zero: an antisymmetric line with symmetric gaps, an all-zero pixel with a
+            #     gap, and an offset c = -mean(valid)
+            h = int(rng.integers(4, 20))
+            n = 2 * h + 1
+            b = int(rng.integers(1, 30))
+            line = np.array([b * (i - h) for i in range(n)], dtype=float)
+            miss = np.zeros(n, dtype=bool)
+            for j in rng.choice(h, size=int(rng.integers(1, max(2, h // 2))), replace=False):
+                miss[h - 1 - j] = miss[h + 1 + j] = True
+            if (~miss).sum() >= need + 1:
+                cases.append(dict(kind=kind, y=[nd if m else float(v) for v, m in zip(line, miss)], nodata=nd, n=n, **params))
+                plan.append(("linear", len(cases) - 1, None, dict(line=[int(v) for v in line], family="antisymmetric line, zero sum")))
+                zero = [nd if m else 0.0 for m in miss]
+                cases.append(dict(kind=kind, y=zero, nodata=nd, n=n, **params))
+                plan.append(("linear", len(cases) - 1, None, dict(line=[0] * n, family="all-zero pixel with gaps")))
+            n = int(rng.integers(12, 50))
+            miss = gap_pattern(rng, n)[:n]
+            miss = np.concatenate([miss, np.zeros(n - len(miss), dtype=bool)]) if len(miss) < n else miss
+            if (~miss).sum() < need + 3:
+                miss[:] = False
+            y = np.clip(gen_series(rng, n, negative_ok=True), -4000, 4000)
+            vi = np.where(~miss)[0]
+            y[vi[-1]] -= float(y[vi].sum() % len(vi))              # make the mean of the valid cells an integer
+            c = -int(y[vi].sum() // len(vi))
+            if abs(c) <= 4500 and nd not in y and (nd + c) not in (y + c):
+                cases.append(dict(kind=kind, y=[nd if m else float(v) for v, m in zip(y, miss)], nodata=nd, n=n, **params))
+                cases.append(dict(kind=kind, y=[nd + c if m else float(v + c) for v, m in zip(y, miss)], nodata=nd + c, n=n, **params))
+                plan.append(("offset", len(cases) - 2, len(cases) - 1, dict(c=c, family="offset to zero mean")))
     res, log = core.run_impl("whit_impl.py", dict(kernels=cases), timeout=3000)
     if res is None:
         ctx.violation("implementation run failed", dict(kind="impl-crash", log=log[-3000:]), found_input=False)
